@@ -74,6 +74,33 @@ claim('C20', 'Coq proof (layered lookup = cmdline ?? coerce(config) ?? default f
       'option-name abbreviations are outside the model; printable-ASCII strings.',
       'DESIGN.md sec. 3 C20')
 
+claim('C04', 'Coq proof (per-primitive refinement of every lock program to an atomic lock specification, invariant over all interleavings, '
+      'trace lemmas by induction) instantiated on the lock markers the translator extracts from the source + trace validation of the model '
+      'against the real lock classes under a lock-step scheduler + linearizability search on the observed histories',
+      'Theorems (Props/C04.v), for any number of clients, all operation histories, all well-formed schedules at primitive granularity, on the '
+      'file, keep-alive file, redis (SETNX) and dict lock programs: exclusion; exactly one winner of a race for a free lock, the first get to '
+      'return; a failed lock answers get False / is_locked True / is_failed True until a release begins and the store holds the failed marker at '
+      'every primitive boundary; other names untouched and each name an independent lock; re-acquirable after release; every operation '
+      'linearizable at its last primitive.  The ORIGINAL redis GETSET program is refuted in Coq (D14, fixed in /repo 949240e).  Tie: every '
+      'primitive (os.path.exists/os.open/unlink/utime/stat, fake-redis commands, dict_lock methods), response and returned value of the real '
+      'locks under exhaustive (curated 2-4 client plans) and random schedules equals the model\'s, evaluated in coqc.',
+      'Kernel + vm_compute; translators harness/translate_c04.py, translate_c19.py (fail-closed); atomicity of O_EXCL create/unlink/utime/stat, of '
+      'redis commands and of dict_lock methods, well-formed use of the API (release/fail by the holder or on a failed lock) and a frozen clock '
+      '>= 1801 s are explicit premises; harness: lock-step scheduler, os-level interposer, fake redis server.',
+      'DESIGN.md sec. 3 C04')
+claim('C05', 'Coq proof (invariant of a file-system model with volatile/durable views over ALL accepted traces, crash points, crash relations and reader interleavings) + trace validation of real file_store runs in coqc + fault enumeration on the real code',
+      'Theorems (Props/C05.v): for every trace accepted by write_protocol, at every crash point, after a process kill and in every '
+      'post-power-loss image each final name is absent or a complete encoding; a reader reads what it opened; the content is the old one '
+      'or the renamed temporary; other results are bit-identical; results vanish only by an entitled unlink; a result moved into the pack '
+      'stays available in every view; redis dump is one SET.  Tie: os-level traces of real dump/re-dump/pack/remove/cleanup (pickles 0 B-5 MB, '
+      'raw and compressed arrays) must be accepted, reproduce the real listing, and every update_pack unlink must be covered by the durable pack; '
+      'every kill / power-loss image and every reader instant of those runs is checked with a fresh file_store.  Found and fixed: jug pack could '
+      'lose results on power loss (6a45d89).',
+      'Kernel + vm_compute; the Fs crash model is the hypothesis (fsync of a directory makes it and its entries durable; un-fsynced data is garbage; '
+      'later directory operations independently lost); fin/complete/unlink entitlement/covers decided by the harness (strict decoder, API arguments); '
+      'interposer cross-checked against strace, crash simulator against the model; fake redis; dump of a packed key drops the old value first (observation).',
+      'DESIGN.md sec. 3 C05')
+
 ALL = ['C%02d' % i for i in range(1, 21)]
 
 
